@@ -204,7 +204,10 @@ func (a Array) Less(v Value) bool {
 	for i, av := range a.values[:n] {
 		bv := b.values[i]
 		if bv == nil {
-			return av != nil
+			if av == nil {
+				continue
+			}
+			return true
 		}
 		if av == nil {
 			return false
